@@ -16,6 +16,7 @@ package server
 //   state retains KEYS / ARGV / EVAL_CMD / DEADLINE / ID / FIELDS / PROPERTIES.
 
 import (
+	"strconv"
 	"fmt"
 	"reflect"
 	"runtime"
@@ -161,7 +162,25 @@ func checkC18Seq(job *Job, res *Result) {
 					continue
 				}
 				// 1b. every write a script makes is logged: a restart reproduces the state
+				// (not asked of deadlines that have passed by the time of the restart)
+				shortTTL := false
+				for ai, a := range shape {
+					if (strings.EqualFold(a, "EXPIRE") && ai+3 < len(shape)+1 && len(shape) >= 4) || strings.EqualFold(a, "EX") {
+						idx := ai + 1
+						if strings.EqualFold(a, "EXPIRE") {
+							idx = ai + 3
+						}
+						if idx < len(shape) {
+							if f, err := strconv.ParseFloat(shape[idx], 64); err == nil && f < 10 {
+								shortTTL = true
+							}
+						}
+					}
+				}
 				for _, variant := range []string{"EVAL", "EVALNA", "EVALSHA"} {
+					if shortTTL {
+						break
+					}
 					x := runExec(job, freezeAllBut(), func(x *Exec) {
 						in := x.Start("L", x.dir+"/L", 9001, nil)
 						c := x.Dial(in.Addr)
